@@ -482,5 +482,23 @@ Definition cmd_save_ondisk (s : dstate) (lr ap : N) : dstate * list dop * outcom
     (drun s ops, ops, oc2)
   else (s, [], Skipped).
 
+(* ---------------------------------------------------------------------- *)
+(* regular (in-memory) state machines: the replica's state after a restart is what
+   snapshotter.Load reads from the recorded snapshot file (plus the log, C04/C08) *)
+
+(* complete and carrying the state machine's image *)
+Definition full_snap (d : data) : bool := valid_snap d && negb (is_partial d).
+
+(* replica start after processOrphans: replayLog, then the initial node.recover =
+   rsm.StateMachine.Recover -> snapshotter.Load -> RecoverFromSnapshot. Nothing of the
+   state machine survives a crash; no Sync, no Shrink *)
+Definition init_recover_reg (s : dstate) : dstate * list dop * outcome :=
+  let r := st_rec (ds_st s) in
+  if r =? 0 then (s, [], Done) else
+  match recorded_file s with
+  | None => (s, [], Failed)
+  | Some d => if full_snap d then (drun s [DSmRecover r], [DSmRecover r], Done) else (s, [], Panicked)
+  end.
+
 (* only so that the extracted code contains the type of Z (ocaml/common/util.ml) *)
 Definition c16_unused_z (x : N) : BinNums.Z := BinInt.Z.of_N x.
